@@ -3,11 +3,12 @@ ID = 'C05'
 LEVEL = 'exploration'
 LEVEL_TEXT = ('bounded: list(Tokenizer().tokenize(text, fullsheet)) for ALL strings up to length 3 (quick) / 4 (thorough) over a 39-character critical alphabet, long repetitive texts '
               '(every 1-2 character pattern x 100-600 repetitions behind every token opener), and all sequences of <= 2 (representatives: <= 3) token spellings of every token kind joined by '
-              'separators: terminates, the spans tile the text, value == span decoded by an independent CSS 2.1 decoder, line/col == position of the first character, span in the '
+              'separators, and all sequences of <= 2 (core units: <= 3; thorough: 4 over the quick core) escape units - hex escapes of the syntax characters in every spelling, simple escapes, escaped line '
+              'breaks, plain characters - as the body of every kind of token that decodes escapes: terminates, the spans tile the text, value == span decoded by an independent CSS 2.1 decoder, line/col == position of the first character, span in the '
               'language of the type (own recognisers) and maximal, known sequences recovered with types/values/offsets, completion + exactly one EOF at the end of input in full-sheet '
               'mode; positions in the error reports of a raising parser')
 LEVEL_NOTE = ('deciding step is the bounded enumeration; discharged besides it: the regex-language lemmas on the real token table (T1-regex, z3 + automata back end) and the error handler contract; the loop contract of Tokenizer.tokenize (contracts/tokenize2.py: termination, tiling, line/col, EOF; modular cut, ~330 paths) is discharged in the thorough tier only (about 5 minutes). Bounded part: blind to strings longer than the bound that are not '
-              'repetitive or built from the spelling inventory, and to code points outside the alphabet; time is only observed as "finishes within 30 s per text"; ten recorded '
+              'repetitive or built from the spelling inventory, and to code points outside the alphabet; time is only observed as "finishes within 30 s per text"; eleven recorded '
               'deviations (known/C05.json) are excluded by symptom, the two exponential-time classes by cutting the input to 12 backslashes / 10 escapes')
 TECHNIQUE = 'regular-language lemmas on the real token table decided by z3 regex + an own automata back end; errorhandler contract by VC generation; bounded run-time contracts on the real tokenizer over exhaustively enumerated short strings and constructed token sequences (reference decoder and recognisers written from CSS 2.1)'
 DESIGN_REF = 'DESIGN.md section 3, C05 (T2 clause); Appendix C "Token-snippet alphabet"'
@@ -17,6 +18,7 @@ def bounded(ctx):
     from bounded import c05
     c05.all_strings(ctx)
     c05.token_sequences(ctx)
+    c05.escape_compositions(ctx)
     c05.long_texts(ctx)
     c05.error_positions(ctx)
     c05.witnesses(ctx)
